@@ -711,12 +711,106 @@ def judge_lookup_shortcut(prog, fn, ifs, m):
 
 
 # ------------------------------------------------------------------------------------------------ R17c aliasing
+def check_inplace_shortcuts(rep, prog, fn, rule):
+    """fast paths of operator+= in front of the general `*this = *this + v`: an early `return *this` without touching the storage is right iff
+    the argument is the zero vector; appending the argument's coordinates to the own list is right iff the own list is empty or its largest
+    coordinate is strictly below the argument's smallest one (equal ends would store the shared coordinate twice instead of combining it)."""
+    from .c10 import guards_formula
+    cfg = fn.cfg
+    if cfg is None or not fn.param_ids:
+        return 0
+    pid = fn.param_ids[0]
+    n = 0
+
+    def coord(e):
+        """('this'|'arg', 'max'|'min') for ones.back() / v.ones.front() / get<0>(entries.back()) ..."""
+        s = e.strip_all()
+        if s.k == 'CallExpr' and s.callee and s.callee['g'] in ('boost::get', 'boost::tuples::get', 'std::get') and s.args():
+            ta = s.callee.get('targs') or []
+            which = ta[0].get('int') if ta and isinstance(ta[0], dict) else None
+            if which != 0:
+                return None
+            s = (s.args()[-1] if s.callee['g'] != 'std::get' else s.args()[0]).strip_all()
+        return end_desc(prog, fn, s, {})
+
+    def atomize(leaf):
+        s = leaf.strip_all()
+        if s.k == 'CXXMemberCallExpr' and s.callee and s.callee['name'] == 'empty':
+            o = storage_owner(prog, fn, s.object_arg())
+            if o:
+                return ex.f_atom(o + '_empty')
+        if s.k == 'BinaryOperator' and s.op in ('<', '>', '<=', '>=', '==', '!='):
+            da, db = coord(s.c[0]), coord(s.c[1])
+            if da and db:
+                op = s.op
+                if da == ('this', 'max') and db == ('arg', 'min'):
+                    pass
+                elif db == ('this', 'max') and da == ('arg', 'min'):
+                    op = {'<': '>', '>': '<', '<=': '>=', '>=': '<=', '==': '==', '!=': '!='}[op]
+                else:
+                    return ex.f_atom(('wrong-ends', leaf.i))
+                lt, eq, gt = ex.f_atom('lt'), ex.f_atom('eq'), ex.f_atom('gt')
+                return {'<': lt, '>': gt, '<=': ex.f_or(lt, eq), '>=': ex.f_or(gt, eq), '==': eq, '!=': ex.f_or(lt, gt)}[op]
+        return None
+    import itertools
+    for r in ex.returns_of(fn):
+        if not ex.ast_conditions(r):
+            continue            # the final return of the general path
+        n += 1
+        what = 'a fast path of %s leaves the same vector as the general merge' % fn.fref['name']
+        blk = r.enclosing('CompoundStmt')
+        appends = [x for x in (blk.walk() if blk is not None else ()) if x.k == 'CXXMemberCallExpr' and x.callee and x.callee['name'] == 'insert' and len(x.args()) == 3 and
+                   storage_owner(prog, fn, x.object_arg()) == 'this' and
+                   any(y.k == 'CXXMemberCallExpr' and y.callee and y.callee['name'] in ('begin', 'cbegin') and storage_owner(prog, fn, y.object_arg()) == 'arg' for y in x.args()[1].walk())]
+        other_writes = [x for x in (blk.walk() if blk is not None else ()) if x.k in ('CXXMemberCallExpr', 'CXXOperatorCallExpr', 'BinaryOperator') and x not in appends and
+                        ((x.k == 'CXXMemberCallExpr' and x.callee and x.callee['name'] in ('push_back', 'clear', 'erase', 'assign', 'swap', 'insert', 'emplace_back', 'resize')
+                          and storage_owner(prog, fn, x.object_arg()) == 'this') or
+                         (x.k != 'CXXMemberCallExpr' and x.op in ('=', '+=') and x is not r))]
+        if other_writes:
+            rep.undecided(rule, r, fn, what, 'the fast path modifies the vector with `%s`, outside the idiom table' % other_writes[0].text(40))
+            continue
+        pc = guards_formula(cfg, r, atomize)
+        atoms = ex.f_atoms(pc)
+        if any(isinstance(a, tuple) and a[0] == 'wrong-ends' for a in atoms):
+            rep.violation(rule, r, fn, what, 'the guard compares the wrong ends of the two coordinate lists', key='%s|%s|fast-path' % (rule, fn.g))
+            continue
+        opaque = [a for a in atoms if isinstance(a, tuple) and a[0] == 'opaque']
+        if opaque:
+            rep.undecided(rule, r, fn, what, 'fast-path guard outside the idiom table')
+            continue
+        bad = None
+        for te, ae, order in itertools.product((False, True), (False, True), ('lt', 'eq', 'gt')):
+            if (te or ae) and order != 'lt':
+                continue        # ends are only compared when both lists are non-empty
+            e = {'this_empty': te, 'arg_empty': ae, 'lt': order == 'lt', 'eq': order == 'eq', 'gt': order == 'gt'}
+            e = {k: v for k, v in e.items() if k in atoms}
+            if not ex.f_eval(pc, e):
+                continue
+            if not appends:
+                if not ae:
+                    bad = 'returns *this unchanged although the argument is not the zero vector'
+            else:
+                if not (te or ae or order == 'lt'):
+                    bad = ('appends the argument\'s coordinates when the largest own coordinate %s the argument\'s smallest one: %s' % (
+                        'equals' if order == 'eq' else 'exceeds',
+                        'the shared coordinate is stored twice instead of being combined (and cancelled when the sum is 0)' if order == 'eq' else 'the list is no longer sorted'))
+            if bad:
+                break
+        if bad:
+            rep.violation(rule, r, fn, what, bad, key='%s|%s|fast-path' % (rule, fn.g))
+        else:
+            rep.ok(rule, r, fn, what, 'append only when the own list is empty or ends strictly before the argument begins' if appends else 'unchanged only for a zero argument')
+    return n
+
+
 def check_compound(rep, prog, fn, rule='R17c'):
     what = '%s stays correct when the argument aliases *this' % fn.fref['name']
     if not fn.param_ids:
         return
     pid = fn.param_ids[0]
     pt = prog.type(prog.vars[pid]['ty']) or {}
+    if fn.fref['name'] == 'operator+=':
+        check_inplace_shortcuts(rep, prog, fn, rule)
     if not pt.get('ref'):
         rep.ok(rule, fn.body, fn, what, 'argument taken by value')
         return
@@ -943,7 +1037,12 @@ def check_sources(rep, prog, rule='R17b'):
                 what = 'the unit-vector constructor stores exactly its argument'
                 pushes = [c for c in fn.walk() if c.k == 'CXXMemberCallExpr' and c.callee and c.callee['name'] in ('push_back', 'emplace_back')]
                 inits = [ci for ci in fn.ctor_inits if ci.get('written') and 'node' in ci and ex.refs_var(ci['node'], pid)]
-                if (len(pushes) == 1 and ex.var_of(pushes[0].args()[0]) == pid and not pushes[0].enclosing('ForStmt', 'WhileStmt')) or (inits and not pushes):
+                cond_push = [c for c in pushes if ex.ast_conditions(c)]
+                if len(pushes) == 1 and cond_push and ex.var_of(pushes[0].args()[0]) == pid:
+                    g_ = ex.ast_conditions(pushes[0])[0][0]
+                    rep.violation(rule, pushes[0], fn, what, 'the coordinate is stored only under `%s`: for the excluded value the unit vector e_i is built as the zero vector '
+                                  '(every value of the index type is a coordinate)' % g_.text(50), key='%s|%s|unit-conditional' % (rule, fn.g))
+                elif (len(pushes) == 1 and ex.var_of(pushes[0].args()[0]) == pid and not pushes[0].enclosing('ForStmt', 'WhileStmt')) or (inits and not pushes):
                     rep.ok(rule, fn.body, fn, what)
                 else:
                     rep.violation(rule, fn.body, fn, what, 'does not push its argument exactly once', key='%s|%s|unit' % (rule, fn.g))
@@ -995,6 +1094,59 @@ def check_brace_assignment(rep, prog, cls=CLS):
     return n
 
 
+def check_erase_in_index_loop(rep, prog, rule='R17e', classes=(CLS, 'parmcb::SpVecFP')):
+    """R17e: `for (i = ...; i < c.size(); i++) if (...) c.erase(c.begin() + i ...)` - after the erase the element that followed moves to
+    position i and the unconditional i++ steps over it without looking at it.  Flagged when the loop index is the erase position, is
+    advanced by the loop header and is not stepped back (or the loop left) on the erasing path."""
+    n = 0
+    for fn in prog.functions:
+        if fn.implicit or fn.body is None or fn.fref.get('rec') not in classes:
+            if not (fn.file.startswith(env.WITNESS + '/positive') and fn.body is not None and not fn.implicit):
+                continue
+        for lp in fn.walk():
+            if lp.k != 'ForStmt' or lp.body is None:
+                continue
+            inc = lp.role('inc')
+            if inc is None:
+                continue
+            i_ = inc.strip_all()
+            iv = None
+            if i_.k == 'UnaryOperator' and i_.op == '++':
+                iv = ex.var_of(i_.c[0])
+            elif i_.k == 'CompoundAssignOperator' and i_.op == '+=' and i_.c[1].strip_all().cv == 1:
+                iv = ex.var_of(i_.c[0])
+            if iv is None or not (prog.base_type(prog.vars[iv]['ty']) or {}).get('int'):
+                continue
+            for er in lp.body.walk():
+                if not (er.k == 'CXXMemberCallExpr' and er.callee and er.callee['name'] == 'erase' and er.args() and ex.refs_var(er.args()[0], iv)):
+                    continue
+                cont = er.object_arg()
+                # is the same container read through the index in this loop (header or body)?
+                reads = [x for x in lp.walk() if x.k == 'CXXOperatorCallExpr' and x.op == '[]' and len(x.c) == 3 and ex.key(x.c[1]) == ex.key(cont) and ex.refs_var(x.c[2], iv)]
+                if not reads:
+                    continue
+                n += 1
+                what = 'erasing at the loop index inside an index loop does not skip the element that moves into the freed position'
+                cfg = fn.cfg
+                compensated = False
+                for m in lp.body.walk():
+                    if m.k == 'UnaryOperator' and m.op == '--' and ex.var_of(m.c[0]) == iv and cfg.reaches(er, m):
+                        compensated = True
+                    if m.k in ('CompoundAssignOperator', 'BinaryOperator') and m.op in ('-=', '=') and ex.var_of(m.c[0]) == iv and cfg.reaches(er, m):
+                        compensated = True
+                    if m.k in ('BreakStmt', 'ReturnStmt') and cfg.reaches(er, m) and cfg.pos_of(m) and cfg.pos_of(er) and \
+                            cfg.block_postdominates(cfg.pos_of(m)[0], cfg.pos_of(er)[0]):
+                        compensated = True
+                if compensated:
+                    rep.ok(rule, er, fn, what, 'the index is stepped back / the loop is left after the erase')
+                else:
+                    rep.violation(rule, er, fn, what,
+                                  'after `%s` the element that followed the erased range sits at position %s, and the loop header advances %s past it unexamined: of several '
+                                  'adjacent candidates only every other one is handled' % (er.text(50), prog.vars[iv]['name'], prog.vars[iv]['name']),
+                                  key='%s|%s|erase-skip' % (rule, fn.g))
+    return n
+
+
 def check_program(rep, prog, rules=('R17a', 'R17b', 'R17c'), cls=CLS):
     seen = 0
     for fn in prog.functions:
@@ -1030,9 +1182,11 @@ def run(rep, tier):
     rep.rule('R17d', 'assignment from empty braces is the zero vector (overload-resolution witness)', floor=1)
     rep.rule('R04f', 'deserialisation (the assignment path of the MPI variants) restores the whole coordinate list on every path', floor=1)
     from . import c04
+    rep.rule('R17e', 'no element is skipped by an erase inside an index loop over the coordinate list', floor=0)
     for prog in progs.values():
         seen = max(seen, check_program(rep, prog))
         check_brace_assignment(rep, prog)
+        check_erase_in_index_loop(rep, prog)
         sub = type(rep)(rep.prop, rep.tier)
         c04.check_wire(sub, prog)
         for i in sub.instances.values():
@@ -1046,7 +1200,8 @@ def run(rep, tier):
         prep = type(rep)(rep.prop, rep.tier)
         check_program(prep, pp)
         check_brace_assignment(prep, pp)
-        for r in ('R17a', 'R17b', 'R17c', 'R17d'):
+        check_erase_in_index_loop(prep, pp)
+        for r in ('R17a', 'R17b', 'R17c', 'R17d', 'R17e'):
             rep.positive(r, 'witness/positive/c17_spvec.cc', any(i.status == 'violation' and i.rule == r for i in prep.instances.values()))
     except env.AnalysisBroken as e:
         rep.analysis_broken('positive example c17_spvec.cc does not parse: ' + str(e)[:300])
